@@ -29,6 +29,12 @@ LEVEL = {
             "through generated histories with real hosted controllers and compared with the model event by event; goroutine shutdown inside Stop() is observed, not modelled",
             "trusted: Lean kernel (+propext, Quot.sound, Classical.choice), Go harness (fake client, LIST/WATCH simulator, webhook server), driver JSON reader; modelled not verified: "
             "controller-runtime, client-go informers/work queues, goroutine scheduling", "Lean 4 proof over a hand-written state machine + event-history correspondence check"),
+    "C17": ("partial. Lean theorems: for an abstract reader/writer lock, in every reachable state two threads never hold it in conflicting modes, so accesses that obey the discipline "
+            "(writes under the exclusive lock, reads under any) never race - for every trace and any number of threads; the table of accesses to metacontroller's process-wide maps "
+            "with the lock held at each is re-extracted from the working tree on every run and proved (decide) to obey the discipline. The cache-read-only half is judged on every "
+            "replayed sync by fingerprinting all cached objects before and after; concurrent workers run under the race detector as failing-input search. Not covered: the Go memory "
+            "model, aliasing the extractor cannot see, equivalence of concurrent and sequential syncs (only observed through the fingerprints)",
+            NOTE_SYNC + "; the access extractor is intra-procedural and syntactic", "Lean 4 proof (lock discipline) over re-extracted access facts + trace-replay cache fingerprints + race-detector runs"),
     "C18": ("Lean theorems about the factory/handler state machine for every operation sequence: an inductive invariant (an informer runs exactly while a subscription to it is open, "
             "one running informer per resource), reference count = open subscriptions, fresh informer after the last close, replay on add, delivery to exactly the registered handlers, "
             "silence after removal, isolation between subscriptions; the real factory is driven through generated operation sequences against a LIST/WATCH simulator and compared with "
